@@ -11,6 +11,7 @@ import (
 	"fmt"
 	"strings"
 	"sync"
+	"sync/atomic"
 	"time"
 
 	"github.com/NethermindEth/juno/core"
@@ -347,7 +348,7 @@ func coreHeight(r db.KeyValueReader) (uint64, error) { return core.GetChainHeigh
 // ------------------------------------------------------------------ the gate
 
 type event struct {
-	kind string // "arrive" (an ingestor is about to ingest range r), "commit" (a batch was written), "done"
+	kind string // "arrive" (an ingestor is about to ingest range r), "commit" (a batch was written), "close" (a batch was closed unwritten), "done"
 	r    uint64
 	n    int
 	err  error
@@ -371,6 +372,55 @@ type gateStore struct {
 	sdOn     bool
 	sdParked []chan struct{}
 	cmt      byte
+	// transient read fault: the readFailAt-th read (Get / Has / NewIterator) fails once
+	reads      atomic.Int64
+	readFailAt int64
+}
+
+var errInjectedRead = errors.New("injected transient read failure")
+
+// readFault counts one read and reports whether it is the one to fail.
+func (g *gateStore) readFault() bool {
+	n := g.reads.Add(1)
+	return g.readFailAt > 0 && n == g.readFailAt
+}
+
+func (g *gateStore) Has(key []byte) (bool, error) {
+	if g.readFault() {
+		return false, errInjectedRead
+	}
+	return g.Store.Has(key)
+}
+
+func (g *gateStore) NewIterator(prefix []byte, withUpperBound bool) (db.Iterator, error) {
+	if g.readFault() {
+		return nil, errInjectedRead
+	}
+	return g.Store.NewIterator(prefix, withUpperBound)
+}
+
+// gbatch reports a batch that is closed without ever having been written.
+type gbatch struct {
+	db.Batch
+	g       *gateStore
+	written bool
+}
+
+func (b *gbatch) Write() error {
+	b.written = true
+	return b.Batch.Write()
+}
+
+func (b *gbatch) Close() error {
+	if !b.written {
+		b.g.events <- event{kind: "close"}
+	}
+	return b.Batch.Close()
+}
+
+func (g *gateStore) NewBatch() db.Batch { return &gbatch{Batch: g.Store.NewBatch(), g: g} }
+func (g *gateStore) NewBatchWithSize(n int) db.Batch {
+	return &gbatch{Batch: g.Store.NewBatchWithSize(n), g: g}
 }
 
 func newGate(inner db.KeyValueStore) *gateStore {
@@ -397,6 +447,9 @@ func (g *gateStore) setOn(on bool) {
 }
 
 func (g *gateStore) Get(key []byte, cb func([]byte) error) error {
+	if g.readFault() {
+		return errInjectedRead
+	}
 	if len(key) == 9 && key[0] == g.hdr {
 		n := binary.BigEndian.Uint64(key[1:])
 		if n%rangeSize == 0 {
